@@ -29,6 +29,31 @@ type sioTimerRun struct {
 	cancel func()
 	cr     *sio.Crew
 	in     chan interface{}
+	dues   []time.Time // when the timers requested so far are due
+	// discard: a firing reached the old crew's input between the harness's snapshot and the
+	// shutdown; the harness cannot order the two, so the scenario says nothing and is run again
+	discard bool
+}
+
+// quiet waits until no requested timer is due within a few milliseconds: the harness is about to
+// read the live timers state itself (to "persist" it), which the timer goroutines write without a
+// lock the harness could take (known finding KF-C17-1 is about the crew's own reads).
+func (r *sioTimerRun) quiet() {
+	for tries := 0; tries < 50; tries++ {
+		now := time.Now()
+		var wait time.Duration
+		for _, d := range r.dues {
+			if d.After(now.Add(-2*time.Millisecond)) && d.Before(now.Add(6*time.Millisecond)) {
+				if w := d.Sub(now) + 6*time.Millisecond; w > wait {
+					wait = w
+				}
+			}
+		}
+		if wait == 0 {
+			return
+		}
+		r.wait(wait)
+	}
 }
 
 func (r *sioTimerRun) us(t time.Time) int64 { return t.Sub(r.t0).Microseconds() }
@@ -69,6 +94,7 @@ func (r *sioTimerRun) step(st gen.TimerStep, who string) {
 		msg := map[string]interface{}{"to": "timers", "makeTimer": map[string]interface{}{
 			"id": st.Id, "in": fmt.Sprintf("%dms", st.Delay), "msg": map[string]interface{}{"to": "nobody", "tag": float64(st.Tag)}}}
 		_, err := r.cr.ProcessMsg(r.ctx, msg)
+		r.dues = append(r.dues, time.Now().Add(time.Duration(st.Delay)*time.Millisecond))
 		res := "ok"
 		if err != nil || r.timersError() {
 			res = "err"
@@ -102,12 +128,22 @@ func (r *sioTimerRun) step(st gen.TimerStep, who string) {
 		r.log(map[string]interface{}{"ev": "pending", "ids": ids})
 	case "restart":
 		// the state a host would have persisted: the timers machine's state as JSON
+		r.quiet()
 		var js []byte
 		if m, have := r.cr.Machines[sio.TimersMachine]; have {
 			js, _ = json.Marshal(m.State)
 		}
 		r.cancel()
 		time.Sleep(5 * time.Millisecond)
+	drain:
+		for {
+			select {
+			case <-r.in:
+				r.discard = true
+			default:
+				break drain
+			}
+		}
 		var state core.State
 		if err := json.Unmarshal(js, &state); err != nil {
 			r.log(map[string]interface{}{"ev": "restartErr", "err": err.Error()})
@@ -155,7 +191,17 @@ func (r *sioTimerRun) fired(m interface{}) {
 	}
 }
 
-func runOneSioTimers(c gen.TimerCase) (res map[string]interface{}) {
+func runOneSioTimers(c gen.TimerCase) map[string]interface{} {
+	for attempt := 0; attempt < 3; attempt++ {
+		res, discard := runOneSioTimersOnce(c)
+		if !discard {
+			return res
+		}
+	}
+	return map[string]interface{}{"events": []interface{}{}, "discarded": true}
+}
+
+func runOneSioTimersOnce(c gen.TimerCase) (res map[string]interface{}, discard bool) {
 	r := &sioTimerRun{c: c, t0: time.Now()}
 	defer func() {
 		if x := recover(); x != nil {
@@ -166,13 +212,16 @@ func runOneSioTimers(c gen.TimerCase) (res map[string]interface{}) {
 		}
 	}()
 	if err := r.boot(nil); err != nil {
-		return map[string]interface{}{"bootErr": err.Error()}
+		return map[string]interface{}{"bootErr": err.Error()}, false
 	}
 	for _, st := range c.Script {
 		r.step(st, "requester")
 		r.wait(0)
+		if r.discard {
+			return nil, true
+		}
 	}
-	return map[string]interface{}{"events": r.events}
+	return map[string]interface{}{"events": r.events}, false
 }
 
 func runSioTimers(cfg Config) {
